@@ -2,6 +2,7 @@ package props
 
 import (
 	"fmt"
+	"strings"
 	"go/token"
 
 	"golang.org/x/tools/go/ssa"
@@ -27,6 +28,7 @@ func checkC09(c *chk.Ctx) {
 		"R09c trimming is only driven by the trimmer and bounded by the commit offset",
 		"R09e a writable segment is flushed before it is unmapped; an offset is marked synced only after a successful flush",
 		"R09f in-segment truncation clears the whole discarded tail",
+		"R09h segment trimming only removes segments whose base offset is provably below the trim offset (difference bound), so the segment holding the trim offset survives",
 	}
 	c.NotDec = []string{
 		"equivalence with a list model for every operation sequence and segment size",
@@ -39,6 +41,7 @@ func checkC09(c *chk.Ctx) {
 	ruleR09e(h)
 	ruleR01f(h, "R09g")
 	ruleTruncateClearsTail(h, "R09f")
+	ruleR09h(h)
 }
 
 // mayBeNil: the (resolved) error operand of a return is not provably non-nil.
@@ -347,4 +350,162 @@ func derefArg(v ssa.Value) ssa.Value {
 		return u
 	}
 	return v
+}
+
+// ruleR09h: difference-bound check of ReadOnlySegmentsGroup.TrimSegments. With ub(v) the
+// best upper bound of v relative to the trim offset (ub(offset)=0, ub(x±c)=ub(x)±c,
+// ub(Floor(x).Key)=ub(x), phi = max), the bound under which segments are removed must
+// have ub <= -1: then every removed segment starts below the segment that contains the
+// trim offset, which is therefore kept.
+func ruleR09h(h *H) {
+	const rule = "R09h"
+	h.Rule(rule, "K8", "in TrimSegments every segment removal is guarded by `segment base <= B` (or < B) with B at least one below the trim offset (B <= offset-1 by difference bounds through Floor lookups and ±constants)", 1)
+	for _, fn := range h.P.ImplMethods("server/wal", "ReadOnlySegmentsGroup", "TrimSegments") {
+		h.Fn(ir.FuncName(fn))
+		var off *ssa.Parameter
+		for _, p := range fn.Params {
+			if p.Type().String() == "int64" {
+				off = p
+			}
+		}
+		if off == nil {
+			h.Anchor(rule, "offset parameter of "+ir.FuncName(fn))
+			continue
+		}
+		var ub func(v ssa.Value, depth int) (int64, bool)
+		ub = func(v ssa.Value, depth int) (int64, bool) {
+			if depth > 12 {
+				return 0, false
+			}
+			v = ir.Canon(v)
+			switch x := v.(type) {
+			case *ssa.Parameter:
+				if x == off {
+					return 0, true
+				}
+			case *ssa.BinOp:
+				if k, ok := x.Y.(*ssa.Const); ok && k.Value != nil {
+					b, ok2 := ub(x.X, depth+1)
+					if !ok2 {
+						return 0, false
+					}
+					switch x.Op {
+					case token.ADD:
+						return b + k.Int64(), true
+					case token.SUB:
+						return b - k.Int64(), true
+					}
+				}
+			case *ssa.Call:
+				if b, ok := x.Call.Value.(*ssa.Builtin); ok && (b.Name() == "max" || b.Name() == "min") {
+					best, have := int64(0), false
+					for _, a := range x.Call.Args {
+						v, ok := ub(a, depth+1)
+						if !ok {
+							if b.Name() == "max" {
+								return 0, false
+							}
+							continue
+						}
+						if !have || (b.Name() == "max" && v > best) || (b.Name() == "min" && v < best) {
+							best, have = v, true
+						}
+					}
+					return best, have
+				}
+			case *ssa.Phi:
+				best := int64(-1 << 40)
+				for _, e := range x.Edges {
+					b, ok := ub(e, depth+1)
+					if !ok {
+						return 0, false
+					}
+					if b > best {
+						best = b
+					}
+				}
+				return best, true
+			case *ssa.UnOp:
+				// load of node.Key where node is the result of a Floor lookup: Key <= lookup argument
+				if r, ok := ir.FieldLoadOf(x); ok && r.Field == "Key" {
+					base := ir.Canon(r.Base)
+					if ex, ok := base.(*ssa.Extract); ok {
+						if call, ok := ex.Tuple.(*ssa.Call); ok {
+							if f := call.Call.StaticCallee(); f != nil && strings.HasPrefix(f.Name(), "Floor") {
+								return ub(call.Call.Args[len(call.Call.Args)-1], depth+1)
+							}
+						}
+					}
+				}
+				// a local cell with several stores: the maximum
+				if u := x; u.Op == token.MUL {
+					if al, ok := u.X.(*ssa.Alloc); ok {
+						best := int64(-1 << 40)
+						for _, st := range ir.AllStores(al) {
+							b, ok := ub(st.Val, depth+1)
+							if !ok {
+								return 0, false
+							}
+							if b > best {
+								best = b
+							}
+						}
+						return best, true
+					}
+				}
+			}
+			return 0, false
+		}
+		n := 0
+		ir.Instrs(fn, func(in ssa.Instruction) {
+			c := ir.CallOf(in)
+			if c == nil {
+				return
+			}
+			f := c.StaticCallee()
+			if f == nil || !strings.HasPrefix(f.Name(), "Remove") || len(c.Args) < 2 {
+				return
+			}
+			// only removals from the tree of all segments (keyed by base offset)
+			key := c.Args[len(c.Args)-1]
+			if key.Type().String() != "int64" {
+				return
+			}
+			o := f
+			if f.Origin() != nil {
+				o = f.Origin()
+			}
+			if o.Pkg == nil || !strings.Contains(o.Pkg.Pkg.Path(), "redblacktree") {
+				return
+			}
+			n++
+			good := false
+			detail := "the removal is not guarded by an upper bound on the segment's base offset"
+			for _, g := range ir.CmpGuards(in) {
+				for _, cmp := range []ir.Cmp{g, g.Flip()} {
+					if ir.Canon(cmp.L) != ir.Canon(key) || (cmp.Op != token.LEQ && cmp.Op != token.LSS) {
+						continue
+					}
+					b, ok := ub(cmp.R, 0)
+					if !ok {
+						detail = "cannot bound " + ir.Describe(cmp.R) + " relative to the trim offset"
+						continue
+					}
+					if cmp.Op == token.LSS {
+						b--
+					}
+					if b <= -1 {
+						good = true
+						detail = fmt.Sprintf("removed segments start at most at offset%+d", b)
+					} else {
+						detail = fmt.Sprintf("segments starting as high as offset%+d can be removed: the segment that holds the trim offset itself (which must stay the first entry) can be deleted", b)
+					}
+				}
+			}
+			h.Verdict(good, rule, fmt.Sprintf("segment removal #%d in %s", n, ir.FuncName(fn)), h.pos(in), detail, detail)
+		})
+		if n == 0 {
+			h.Anchor(rule, "removal of segments in "+ir.FuncName(fn))
+		}
+	}
 }
